@@ -106,7 +106,10 @@ def run(ctx):
     ctx.check("R2-unknown-code-raises", where, any(isinstance(n, ast.Raise) for n in walk_own(fu)), "an unknown escape code raises")
 
     # ---- R3 -----------------------------------------------------------------
+    from ..astutil import bind_roles, canonicalise
+
     fw = repo.func(UR, "git_url_to_bzr_url")
+    fw = canonicalise(fw, bind_roles(fw, {"params": ("recv_arg", "join_segment_parameters", 1)}, f"{UR}:git_url_to_bzr_url"))
     wkeys = set()
     for n in walk_own(fw):
         if isinstance(n, ast.Subscript) and isinstance(n.ctx, ast.Store) and norm(n.value) == "params" and isinstance(n.slice, ast.Constant):
@@ -155,7 +158,13 @@ def run(ctx):
     ctx.check("url-result-order", where, want_order == ["branch", "ref"] or (want_order is not None and want_order[0] == "branch"), f"result tuple is (url, <branch>, <ref>): {order} with keys {want_order}", construct=str(order), message="result order of bzr_url_to_git_url no longer matches (url, branch, ref) unpacked by GitBranch.set_parent")
     fsp = repo.func("breezy/git/branch.py", "GitBranch.set_parent")
     unp = [norm(n.targets[0]) for n in walk_own(fsp) if isinstance(n, ast.Assign) and isinstance(n.value, ast.Call) and call_attr(n.value) == "bzr_url_to_git_url"]
-    ctx.check("url-result-order", "breezy/git/branch.py:GitBranch.set_parent", unp == ["(target_url, branch, ref)"], f"set_parent unpacks {unp}")
+    # the unpacked (url, branch, ref) are used as such: `branch` goes through branch_name_to_ref, `ref` is stored raw
+    tup = [n.targets[0] for n in walk_own(fsp) if isinstance(n, ast.Assign) and isinstance(n.value, ast.Call) and call_attr(n.value) == "bzr_url_to_git_url" and isinstance(n.targets[0], ast.Tuple) and len(n.targets[0].elts) == 3]
+    ok_unp = len(tup) == 1
+    if ok_unp:
+        _u, _b, _r = (norm(e) for e in tup[0].elts)
+        ok_unp = any(norm(c.func) == "branch_name_to_ref" and [norm(a) for a in c.args] == [_b] for c in calls_in(fsp)) and any(call_attr(c) == "set" and len(c.args) == 3 and norm(c.args[2]) == _r for c in calls_in(fsp)) and any(norm(c.func) == "urlutils.relative_url" and norm(c.args[-1]) == _u for c in calls_in(fsp))
+    ctx.check("url-result-order", "breezy/git/branch.py:GitBranch.set_parent", ok_unp, f"set_parent unpacks (url, branch, ref) and uses the 2nd as a branch name, the 3rd as a raw ref: {unp}")
     # ---- R4: the parent location is written to and read from the same git config entries -----------------------
     GB = "breezy/git/branch.py"
 
